@@ -36,7 +36,13 @@ Incoming(api, sid, pending) ==
          /\ rs = <<>>
          /\ \E i \in DOMAIN pending : pending[i].task = "srv" /\ pending[i].api = api /\ pending[i].kind = "rx" /\ pending[i].sid = sid
 
-Check(pending) ==
+\* part T: two sessions on one connection - the stream is attached to the session its header names (4), not to the accepting one (0)
+CheckTwo ==
+    /\ closed = -1
+    /\ Len(Ret("wt_accept")) = 1 /\ Ret("wt_accept")[1].k = "ok" /\ Ret("wt_accept")[1].session = 0
+    /\ Len(Ret("accept_bi_request")) = 1
+    /\ LET rs == Ret("accept_bi") IN Len(rs) = 1 /\ rs[1].k = "eof" /\ rs[1].session = 4 /\ rs[1].sid = meta.bi_sid /\ rs[1].bytes = meta.pay_in
+CheckW(pending) ==
     /\ closed = -1
     /\ Len(Ret("wt_accept")) = 1 /\ Ret("wt_accept")[1].k = "ok" /\ Ret("wt_accept")[1].session = C
     /\ Opened("open_uni", 84, P1)
@@ -50,6 +56,8 @@ Check(pending) ==
        ELSE \* extension disabled: the typed stream is not surfaced, and that is not an error
            Ret("accept_uni") = <<>>
 
+Check(pending) == IF meta.part = "T" THEN CheckTwo ELSE CheckW(pending)
+
 Init == l = 1 /\ scn = "" /\ meta = <<>> /\ rets = <<>> /\ wires = <<>> /\ dgrams = <<>> /\ closed = -1 /\ ok = TRUE /\ why = <<"">>
 Reset == E.ev = "reset" /\ scn' = E.scn /\ meta' = E.meta /\ rets' = <<>> /\ wires' = <<>> /\ dgrams' = <<>> /\ closed' = -1 /\ ok' = TRUE /\ why' = <<"">>
 Proj(r) == CASE r.k = "ok" /\ "session" \in DOMAIN r -> [k |-> "ok", session |-> r.session]
@@ -57,7 +65,7 @@ Proj(r) == CASE r.k = "ok" /\ "session" \in DOMAIN r -> [k |-> "ok", session |->
              [] r.k = "eof" -> [k |-> "eof", session |-> r.session, sid |-> r.sid, bytes |-> r.bytes]
              [] r.k = "datagram" -> [k |-> "datagram", sid |-> r.sid, payload |-> r.payload]
              [] OTHER -> [k |-> r.k]
-WtApis == {"wt_accept", "open_uni", "open_bi", "accept_uni", "accept_bi", "send_datagram", "read_datagram"}
+WtApis == {"wt_accept", "open_uni", "open_bi", "accept_uni", "accept_bi", "accept_bi_request", "send_datagram", "read_datagram"}
 ARet == /\ E.ev = "ret" /\ E.api \in WtApis /\ rets' = Append(rets, Proj(E.res) @@ [api |-> E.api])
         /\ UNCHANGED <<scn, meta, wires, dgrams, closed, ok, why>>
 Wrote == /\ E.ev = "wrote"
